@@ -123,6 +123,8 @@ def connect(path: StrPath, *, read_only: bool = False, **kwargs: Any) -> sqlite3
       which is required for the `ON DELETE CASCADE` cleanup of satellite rows.
       This is a per-connection setting (not stored in the database file),
       so it must be set on every connection.
+    - `LIKE` is made case sensitive, because paths that differ in letter case are different paths
+      (see `prefix_clause()`). This is a per-connection setting too.
     - The auto_vacuum mode is set to INCREMENTAL to allow incremental vacuuming of the database.
     - The journal mode is set to WAL (Write-Ahead Logging) to allow concurrent reads and writes.
     - The synchronous mode is set to OFF to improve performance,
@@ -150,6 +152,9 @@ def connect(path: StrPath, *, read_only: bool = False, **kwargs: Any) -> sqlite3
     con = sqlite3.connect(path, **kwargs)
     con.isolation_level = None
     con.execute("PRAGMA foreign_keys = ON")
+    # LIKE ignores the case of ASCII letters by default,
+    # while `prefix_clause()` must compare paths byte for byte.
+    con.execute("PRAGMA case_sensitive_like = ON")
     if not read_only:
         # The auto_vacuum pragma must come first.
         # As of SQLite 3.51, setting the journal mode of a new database writes its header,
